@@ -8,6 +8,8 @@ __eq__/__hash__/__str__ and TimeRecurrenceParser.parse.  The workload drives
 round trip on the real operators with the monitors attached."""
 import itertools
 
+from fractions import Fraction as F
+
 from .. import gen
 from .. import recgen
 from .. import refmodel as R
@@ -41,8 +43,12 @@ def _rk(rec):
 
 def _usable(rec):
     for x in (rec._start_point, rec._end_point):
-        if x is not None and (x._truncated or not R.tp_is_integral(x) or
-                              x._hour_of_day == 24):
+        # (whole seconds, or fractions that are small binary fractions and so
+        # exact in the library's floats: 06:30,5 / 06,125)
+        if x is not None and (x._truncated or x._hour_of_day == 24 or
+                              not (R.tp_is_integral(x) or
+                                   (R.tp_is_dyadic(x, 16) and
+                                    R.tp_offset_minutes(x) % 15 == 0))):
             return False
     d = rec._duration
     return d is None or R.dur_is_integral(d)
@@ -88,6 +94,18 @@ def install(ctx, repo, probes):
                 if R.dur_is_exact(d):
                     shift = sign * R.dur_len(d)
                     if exact_iv:
+                        # (decimal anchors: when the shift is no binary
+                        # fraction of the anchor's last unit - quarter
+                        # minutes, sixteenths of an hour - the library's
+                        # floats round the result and a bounded series may
+                        # even lose its last point - C12's finding
+                        # c12_decimal_anchor_float_drop; nothing is decided)
+                        grain = {"hm": 15, "h": 225}
+                        if any(shift % grain.get(R.tp_form(x), 1)
+                               for x in (r._start_point, r._end_point)
+                               if x is not None and
+                               not R.tp_is_integral(x)):
+                            return
                         if after != [x + shift for x in before]:
                             prob = "series not moved by %s s: %r -> %r" % (
                                 shift, before[:3], after[:3])
@@ -592,6 +610,33 @@ def workload(ctx, repo):
                 for shift in ({"hours": 1}, {"days": -3, "seconds": 1}):
                     case = {"op": "shift", "desc": desc, "shift": shift}
                     ctx.case = case
+                    run_case(ctx, repo, case)
+    # anchors written with decimal minutes / decimal hours (binary fractions:
+    # exact in floats) shifted by whole seconds, minutes and hours
+    if ctx.worker == 0:
+        for fmt in (3, 4):
+            for tkw in ({"hour_of_day": 6, "minute_of_hour": 30,
+                         "minute_of_hour_decimal": 0.5},
+                        {"hour_of_day": 23, "minute_of_hour": 59,
+                         "minute_of_hour_decimal": 0.25},
+                        {"hour_of_day": 6, "hour_of_day_decimal": 0.125},
+                        {"hour_of_day": 6, "minute_of_hour": 30,
+                         "second_of_minute": 15,
+                         "second_of_minute_decimal": 0.5}):
+                for shift in ({"seconds": 45}, {"seconds": -45},
+                              {"minutes": 1, "seconds": 30},
+                              {"hours": 1, "seconds": 1}, {"minutes": 7},
+                              {"hours": -2}, {"days": 1, "seconds": 15}):
+                    a = {"year": 2021, "month_of_year": 12,
+                         "day_of_month": 31}
+                    a.update(tkw)
+                    a.update(gen.zone_kwargs((0, 0)))
+                    desc = {"mode": "gregorian", "fmt": fmt, "reps": 3,
+                            "dur": {"hours": 6}}
+                    desc["start" if fmt == 3 else "end"] = a
+                    case = {"op": "shift", "desc": desc, "shift": shift}
+                    ctx.case = case
+                    ctx.ev("cases.decimal-anchor-shifts")
                     run_case(ctx, repo, case)
     for k in range(n):
         mode = R.MODES[k % 4] if k % 2 else "gregorian"
